@@ -378,7 +378,7 @@ impl Check for C09Check {
         true
     }
     fn rule(&self) -> String {
-        "stage A scenarios (each executed by the release and by the overflow-checked harness build): one main event of kind {forward-model event with 1-6 tracks, noise 0..200 counts, amplitude scale 0.05..40 (saturating); extreme-but-CRC-valid event: 0..256 wires (seam-straddling blocks, full ring) with samples all MIN / all MAX / alternating / full-range random / flat / single spike / ramp, lengths 64,99..102,130,..1500, 0..6 PWB messages with 1..79 channels, requested_samples 0,1,2,99..102,..511 and pad samples over the full i16 range; one response-shaped pulse at a seeded (wire, time bin 0..300, pad row) - the quick tier additionally sweeps EVERY time bin 0..=300 at several z; synthetic hit patterns (radial line, equal-radius arc, repeated points, full ring, vertical line, seam block, crossing lines, random cloud) of 1..256 avalanches; random bank names and bytes; a C10 base event with one event-builder inconsistency} -> real try_from_banks -> timestamp, avalanches, vertex under catch_unwind in worker processes with a watchdog. stage B scenarios: 3-12 such events (plus light events) written into a simulated MIDAS file and analysed by the real alpha-g-vertices on the simulated rayon-core (seeded schedule, 1-16 workers, 4 MiB worker stacks as configured by the program): exit status 0 and exactly one row per main event, in order. stage C scenarios (supplementary, nondeterministic): files of 16-28 similar large events (60-100-wire arcs, full rings, 3-track events) analysed 4 times by the build with the REAL rayon-core on 8/16 real threads - the simulated scheduler interleaves at closure granularity only, so a data race between two workers inside a closure needs real preemption; a failure here is reported with a replay that repeats the run. Violation = panic, abort (worker death / signal), hang, or a lost row. Non-trivial = the event reached try_from_banks; distinct = distinct event-log hashes (bank bytes + outcome summary).".into()
+        "stage A scenarios (each executed by the release and by the overflow-checked harness build): one main event of kind {forward-model event with 1-6 tracks, noise 0..200 counts, amplitude scale 0.05..40 (saturating); extreme-but-CRC-valid event: 0..256 wires (seam-straddling blocks, full ring) with samples all MIN / all MAX / alternating / full-range random / flat / single spike / ramp, lengths 64,99..102,130,..1500, 0..6 PWB messages with 1..79 channels, requested_samples 0,1,2,99..102,..511 and pad samples over the full i16 range; one response-shaped pulse at a seeded (wire, time bin 0..300, pad row) - the quick tier additionally sweeps EVERY time bin 0..=300 at several z; synthetic hit patterns (radial line, equal-radius arc, repeated points, full ring, vertical line, seam block, crossing lines, isochronous pad columns, calibration holes, random cloud) of 1..256 avalanches, half of them with the ADC data suppression on; a block of radial stubs (13-17 avalanches on ONE wire in consecutive early time bins - all points at one phi - on seeded wires and start bins, 700 / 12 000 of them); random bank names and bytes; a C10 base event with one event-builder inconsistency} -> real try_from_banks -> timestamp, avalanches, vertex under catch_unwind in worker processes with a watchdog. stage B scenarios: 3-12 such events (plus light events) written into a simulated MIDAS file and analysed by the real alpha-g-vertices on the simulated rayon-core (seeded schedule, 1-16 workers, 4 MiB worker stacks as configured by the program): exit status 0 and exactly one row per main event, in order. stage C scenarios (supplementary, nondeterministic): files of 16-28 similar large events (60-100-wire arcs, full rings, 3-track events) analysed 4 times by the build with the REAL rayon-core on 8/16 real threads - the simulated scheduler interleaves at closure granularity only, so a data race between two workers inside a closure needs real preemption; a failure here is reported with a replay that repeats the run. Violation = panic, abort (worker death / signal), hang, or a lost row. Non-trivial = the event reached try_from_banks; distinct = distinct event-log hashes (bank bytes + outcome summary).".into()
     }
     fn assumptions(&self) -> Vec<String> {
         vec![
@@ -395,8 +395,8 @@ impl Check for C09Check {
     }
     fn count(&self, tier: Tier) -> u64 {
         2 * match tier {
-            Tier::Quick => 1000 + 301 * 4 + 40 + 6,
-            Tier::Thorough => 60_000 + 301 * 40 + 1500 + 120,
+            Tier::Quick => 1000 + 301 * 4 + 40 + 6 + 700,
+            Tier::Thorough => 60_000 + 301 * 40 + 1500 + 120 + 12_000,
         }
     }
     fn generate(&self, _seed: u64, index: u64, tier: Tier) -> Value {
@@ -408,6 +408,11 @@ impl Check for C09Check {
             Tier::Quick => (1000u64, 4u64, 40u64),
             Tier::Thorough => (60_000, 40, 1500),
         };
+        // radial stubs (hit patterns 26 / 27) on seeded wires and start bins
+        let n_stub = match tier {
+            Tier::Quick => 700u64,
+            Tier::Thorough => 12_000,
+        };
         let kind = if i < n_rand {
             random_kind(&mut r, tier, i)
         } else if i < n_rand + 301 * n_z {
@@ -416,6 +421,9 @@ impl Check for C09Check {
             let rows = [288usize, 113, 575, 0, 462, 470, 100, 200];
             let row = if (k / 301) < 8 { rows[(k / 301) as usize] } else { r.usize(0, 575) };
             Kind::Pulse { wire: r.usize(0, 255), bin: (k % 301) as usize, row, amp: 80.0 }
+        } else if i >= n_rand + 301 * n_z + n_file + if tier == Tier::Quick { 6 } else { 120 } {
+            let _ = n_stub;
+            Kind::Hits { pattern: 26 + (i % 2) as u8, n: 13 + (i % 5) as usize }
         } else if i < n_rand + 301 * n_z + n_file {
             let n = r.usize(3, 12);
             let events = (0..n).map(|k| random_kind(&mut r, tier, k as u64 * 7 + i)).collect();
@@ -694,6 +702,9 @@ fn kind_banks_hits(r: &mut Rng, pattern: u8, n: usize, run: Option<u32>) -> (u32
                         let i = (k / 2) % 8;
                         Av { wire: 8 * (w0 / 8) + i, bin: 212 + if *(&pattern) == 18 { k % 2 } else { 0 }, z: z0.clamp(-1.0, 0.9) + 0.008 * i as f64 + 0.1 * (k / 16) as f64, wire_amp: 400.0 + 40.0 * i as f64, pad_amp: 1500.0 + 60.0 * i as f64 }
                     }
+                    // radial stub next to a wire: ONE wire, consecutive early time bins (where the drift table
+                    // has no Lorentz angle yet, so all points share one phi), consecutive pad rows
+                    26 | 27 => Av { wire: w0, bin: (w0 * 7 + (z0.abs() * 1000.0) as usize) % 13 + k, z: z0.clamp(-1.0, 0.9) + 0.004 * k as f64, wire_amp: 200.0, pad_amp: 1500.0 },
                     // exact random cloud
                     20 => Av { wire: r.usize(0, 255), bin: r.usize(0, 280), z: r.f64_range(-1.15, 1.15), wire_amp: r.f64_range(20.0, 300.0), pad_amp: r.f64_range(200.0, 2500.0) },
                     // random cloud
@@ -738,7 +749,7 @@ fn kind_banks_hits(r: &mut Rng, pattern: u8, n: usize, run: Option<u32>) -> (u32
                 let run = run.unwrap_or(fwd::SIM_RUN);
                 return (run, fwd::banks_of_run(&sig, run, r.next_u32(), 0.0, r.next_u64(), 30000));
             }
-            let exact = (18..=20).contains(&pattern);
+            let exact = (18..=20).contains(&pattern) || pattern == 27;
             let sigma = *r.pick(&[0.003, 0.005, 0.008]);
             let sig = if exact { fwd::signals_of_opts(&avs, 0.003, true) } else { fwd::signals_of(&avs, sigma) };
             let run = run.unwrap_or(fwd::SIM_RUN);
